@@ -5,6 +5,7 @@ CONSTANTS
   Sizes = {3}
   KvPool <- KvPoolFull
   TokPool <- TokPoolFull
+  MixPool <- MixPoolFull
   Extra <- FourProc
   GFirst = TRUE
   SelDet = TRUE
